@@ -109,4 +109,62 @@ theorem optimizeCore_spec (g : Graph Rat) (hg : GraphOK g) (res tol : Rat) (K : 
     obtain ⟨q1, q2, q3, q4⟩ := coreLoop_spec g hg res tol K fuel st 0 hinv r.1 r.2 hc
     refine ⟨by linarith, q3, q4, q1.len, q1.bound⟩
 
+/-! ### the loop as compiled: at most `n + 1` passes -/
+
+theorem coreCapped_spec (g : Graph Rat) (hg : GraphOK g) (res tol : Rat) (K : Nat) (passes : Nat) (st : St Rat)
+    (inc : Rat) (hinv : CoreInv g K st) :
+    CoreInv g K (coreCapped g res tol passes st inc).1 ∧
+    (coreCapped g res tol passes st inc).2 - inc
+      = QG g res (coreCapped g res tol passes st inc).1.labels - QG g res st.labels ∧
+    inc ≤ (coreCapped g res tol passes st inc).2 ∧
+    JoinSteps g st.labels (coreCapped g res tol passes st inc).1.labels := by
+  induction passes generalizing st inc with
+  | zero => exact ⟨hinv, by simp [coreCapped], le_refl _, JoinSteps.refl _⟩
+  | succ f ih =>
+    obtain ⟨p1, p2, p3, p4, -⟩ := corePass_spec g hg res K st hinv
+    simp only [coreCapped]
+    split
+    · refine ⟨p1, ?_, ?_, p4⟩
+      · show inc + (corePass g res st).2 - inc = _
+        rw [p2]; ring
+      · show inc ≤ inc + (corePass g res st).2
+        linarith
+    · obtain ⟨q1, q2, q3, q4⟩ := ih (corePass g res st).1 (inc + (corePass g res st).2) p1
+      refine ⟨q1, ?_, ?_, p4.trans q4⟩
+      · have e : (corePass g res st).2 = QG g res (corePass g res st).1.labels - QG g res st.labels := p2
+        linarith
+      · linarith
+
+/-- **optimize_core as compiled** (the loop ends by its tolerance or by its bound of `n + 1` passes): the returned
+    `increase` is the change of `Q`, non-negative, the labels are reached by joining neighbours' clusters. -/
+theorem optimizeCoreCapped_spec (g : Graph Rat) (hg : GraphOK g) (res tol : Rat) (K : Nat) (st : St Rat)
+    (hinv : CoreInv g K st) :
+    (optimizeCoreCapped g res tol st).2 = QG g res (optimizeCoreCapped g res tol st).1 - QG g res st.labels ∧
+    0 ≤ (optimizeCoreCapped g res tol st).2 ∧ JoinSteps g st.labels (optimizeCoreCapped g res tol st).1 ∧
+    (optimizeCoreCapped g res tol st).1.length = g.n ∧
+    (∀ i, i < g.n → labOf (optimizeCoreCapped g res tol st).1 i < K) := by
+  obtain ⟨q1, q2, q3, q4⟩ := coreCapped_spec g hg res tol K (g.n + 1) st 0 hinv
+  refine ⟨?_, q3, q4, q1.len, q1.bound⟩
+  have : (coreCapped g res tol (g.n + 1) st 0).2 - 0
+      = QG g res (coreCapped g res tol (g.n + 1) st 0).1.labels - QG g res st.labels := q2
+  show (coreCapped g res tol (g.n + 1) st 0).2
+    = QG g res (coreCapped g res tol (g.n + 1) st 0).1.labels - QG g res st.labels
+  linarith
+
+/-- whenever the loop without the bound ends within the passes allowed, the compiled loop returns the same -/
+theorem coreCapped_of_coreLoop (g : Graph Rat) (res tol : Rat) (passes : Nat) (st : St Rat) (inc : Rat)
+    (r : St Rat × Rat) (h : coreLoop g res tol passes st inc = some r) : coreCapped g res tol passes st inc = r := by
+  induction passes generalizing st inc with
+  | zero => simp [coreLoop] at h
+  | succ f ih =>
+    simp only [coreLoop] at h
+    simp only [coreCapped]
+    split at h
+    · rename_i hs
+      rw [if_pos hs]
+      exact Option.some.inj h
+    · rename_i hs
+      rw [if_neg hs]
+      exact ih _ _ h
+
 end SkNet.Modularity
